@@ -5,24 +5,30 @@ import vlib
 TARGETS = ["Base/Corr.vo", "Base/Fl.vo", "Base/Num.vo", "C01/Model.vo", "C01/Corr.vo", "C01/ModelR.vo", "C01/CorrR.vo",
            "C01/Spec.vo", "C01/ProofsList.vo", "C01/ProofsComb.vo", "C01/ProofsCoef.vo", "C01/ProofsJet.vo",
            "C01/ProofsRefuted.vo", "C01/ProofsStore.vo", "C01/ProofsOps.vo", "C01/ProofsSound.vo", "C01/ProofsChain2.vo",
-           "C01/ProofsProg.vo", "C01/ModelVariants.vo", "C01/ProofsAlias.vo", "C01/Props.vo"]
+           "C01/ProofsProg.vo", "C01/ModelVariants.vo", "C01/ProofsAlias.vo", "C01/ProofsSpecial.vo",
+           "C01/ProofsRed.vo", "C01/ProofsSmooth.vo", "C01/ProofsDag.vo", "C01/Props.vo"]
 PROPS = ["C01/Props.v"]
 PARTIAL = ("Theorems are over the reals and about the hand-written register-file model coq/C01/Model.v (tied to /repo HEAD by the "
-           "bit-exact single-step replay). Proved: combinator algebra (all n, orders 0-2, all aliasing for one argument; two arguments "
-           "except a receiver that is an operand of smaller N/order), coefficient correctness of Neg Sin Cos Sinh Cosh Tan Tanh Exp Log "
-           "Log1p Pow(const) and of the dyadic entries Add Sub Mul Div Pow(variable exponent, x>0) along every curve, Erf Erfc Gamma "
-           "Lgamma relative to Section hypotheses, one- and two-argument chain-rule bridges, storage operations (Reset/SetFloat64 zero "
-           "every slot for any stale content, Set copies the jet, SetVariable), ad_sound for expression trees compiled to SSA register "
-           "programs over all table operations (value, all first and second partials via is_derive, symmetry, zero slots for unmentioned "
-           "variables, constants), composite programs Logistic, Sigmoid (both branches), Log1pExp (4 branches, exact on (-37,18], "
-           "coefficient error bounds elsewhere), Sqrt, Abs off 0 (+ concrete ABS), Min, Max, LogAdd, LogSub (+ -Inf short cuts for every "
-           "carrier), Mtrace and Vmean on a reused accumulator. NOT proved: SmoothMax, LogSmoothMax, VdotV, Vnorm, Mnorm (no Coq "
-           "statement), reductions on a FRESH (order 0) accumulator (reallocated by AllocForTwo: excluded by alloc_keeps), composite "
-           "instructions / shared sub-results as nodes of ad_sound's expression type, LogErfc Mlgamma GammaP Bessel coefficients: "
-           "correspondence and certificates only. Binary64/binary32 rounding is covered per sampled case: bit-exact single-step replay "
-           "of every operation (libm results supplied as oracle; deterministic streams for restarted registers with stale raw content "
-           "and for Pow with a magic exponent) and Coq-Interval certificates |model_R - Go| <= 2^-40 relative for the elementary "
-           "operations and depth<=3 DAGs.")
+           "bit-exact single-step replay). Proved: combinator algebra (all n, orders 0-2, every aliasing of receiver and operands; the "
+           "eight Go combinators transliterated one by one in ModelVariants.v are the two shared loops, and for every copy the aliased "
+           "call c = a, c = b, c = a = b equals the fresh-receiver call; the gradient-before-Hessian order is refuted on the model; a "
+           "receiver-operand that AllocForTwo reallocates is covered when it is a constant: step_dyadic_any_receiver), coefficient "
+           "correctness of Neg Sin Cos Sinh Cosh Tan Tanh Exp Log Log1p Pow(const) and of the dyadic entries Add Sub Mul Div "
+           "Pow(variable exponent, x>0) along every curve; Erf Erfc Gamma Lgamma LogErfc Mlgamma GammaP BesselI relative to the "
+           "defining relations of the special functions (hypotheses of the statements), one- and two-argument chain-rule bridges, "
+           "storage operations, ad_sound for expression trees compiled to SSA register programs, its extension to DAGs (let-bound "
+           "shared sub-results) with composite nodes Logistic Sigmoid Sqrt Abs Min Max LogAdd (program computes the closed-form jet; "
+           "jets are derivatives for the let-free fragment over table operations, Logistic, Sigmoid, Sqrt), composite programs Logistic, "
+           "Sigmoid, Log1pExp (4 branches), Sqrt, Abs off 0, Min, Max, LogAdd, LogSub (+ -Inf short cuts for every carrier), and the "
+           "reductions Mtrace, Vmean, VdotV, Vnorm, Mnorm (sum of squares as coded), SmoothMax for a reused OR fresh accumulator. "
+           "NOT proved: LogSmoothMax (accumulators start at -Inf: no statement over R), derivative-of-the-denoted-function for Abs / Min / "
+           "Max / LogAdd DAG nodes (only their closed-form jets), LogBesselI coefficients, F-ALLOC cases (a receiver-operand of a "
+           "different non-zero shape: property C08). Binary64/binary32 rounding is covered per sampled case: bit-exact single-step replay "
+           "of every operation (libm results supplied as oracle; deterministic streams for restarted registers with stale raw content, "
+           "Pow with a magic exponent, and the full enumeration method x {generic, concrete} x alias pattern x {Real64, Real32} at "
+           "order 2 / N >= 2 with dense non-proportional operand gradients, in-place programs and in-place typed vector/matrix "
+           "element-wise methods) and Coq-Interval certificates |model_R - Go| <= 2^-40 relative for the elementary operations and "
+           "depth<=3 DAGs.")
 CORPUS = os.path.join(vlib.ROOT, "corpus/C01/corpus.jsonl")
 
 
@@ -169,10 +175,18 @@ def run(ctx):
         else:
             unknown.append(hit)
     seen = set()
+    groups = {}
     for hit in unknown:
-        if hit["site"] in seen:
+        if hit.get("class") in ("alias", "inplace", "inplace-vec"):
+            groups.setdefault(hit["class"], []).append(hit["site"])
+    for hit in unknown:
+        key = hit["class"] if hit.get("class") in groups else hit["site"]
+        if key in seen:
             continue
-        seen.add(hit["site"])
+        seen.add(key)
+        if key in groups and len(groups[key]) > 1:
+            hit = dict(hit)
+            hit["failure"] += " [%d sites of class %s fail: %s]" % (len(groups[key]), key, ", ".join(groups[key][:12]))
         ctx.violation({"hunt": hit, "failure": hit["failure"],
                        "broken": [f["target"] for f in failures] + (["correspondence C01.Corr.check"] if bad else []) +
                                  (["certificates C01.CorrR.certR"] if badcert else [])},
